@@ -22,7 +22,7 @@ import time
 import traceback
 
 ROOT = os.path.dirname(os.path.dirname(os.path.abspath(__file__)))
-EVIDENCE_DIR = os.path.join(ROOT, 'evidence')
+EVIDENCE_DIR = os.environ.get('NVF_EVIDENCE_DIR') or os.path.join(ROOT, 'evidence')   # redirected when a check is pointed at a scratch tree
 REPLAY_DIR = os.path.join(EVIDENCE_DIR, 'replays')
 KNOWN_FILE = os.path.join(ROOT, 'known_findings.json')
 
